@@ -704,7 +704,19 @@ impl<'a> Socket<'a> {
 
                 net_debug!("DHCP send renew to {}: {:?}", ipv4_repr.dst_addr, dhcp_repr);
                 ipv4_repr.payload_len = udp_repr.header_len() + dhcp_repr.buffer_len();
-                emit(cx, (ipv4_repr, udp_repr, dhcp_repr))?;
+                if let Err(e) = emit(cx, (ipv4_repr, udp_repr, dhcp_repr)) {
+                    if state.rebinding {
+                        return Err(e);
+                    }
+                    // The unicast renewal could not be sent, typically because the
+                    // server's hardware address is not (or no longer) known. Do not
+                    // report the failure: the interface would then stop calling us
+                    // while it waits for the neighbor, and neither the rebinding time
+                    // nor the end of the lease would be noticed. Retry shortly instead,
+                    // without sleeping past T2.
+                    state.renew_at = now + Duration::from_secs(1).min(state.rebind_at - now);
+                    return Ok(());
+                }
 
                 // In both RENEWING and REBINDING states, if the client receives no
                 // response to its DHCPREQUEST message, the client SHOULD wait one-half
